@@ -6,6 +6,7 @@ package main
 // specification needs for uninterpreted symbols.
 
 import (
+	"github.com/tobgu/qframe/config/rolling"
 	"github.com/tobgu/qframe/config/csv"
 	"bufio"
 	"bytes"
@@ -1090,6 +1091,21 @@ func (x *Exec) dispatch(st *Step, ev Ev) {
 		qf := x.frame(st.Recv)
 		ev["a"] = Ev{"dst": bsOr(st.Dst), "src": bsOr(st.Src)}
 		x.result(ev, qf.Copy(st.Dst.String(), st.Src.String()))
+	case "Rolling":
+		// A: window size (0 = not configured), B = 1: an interval function is configured, Fl: position ("" = not configured)
+		qf := x.frame(st.Recv)
+		var cf []rolling.ConfigFunc
+		if st.A != 0 {
+			cf = append(cf, rolling.WindowSize(st.A))
+		}
+		if st.B == 1 {
+			cf = append(cf, rolling.IntervalFunction(st.Src.String(), func(a, b int) bool { return b < a+2 }))
+		}
+		if st.Fl != "" {
+			cf = append(cf, rolling.Position(st.Fl))
+		}
+		ev["a"] = Ev{"dst": bsOr(st.Dst), "src": bsOr(st.Src), "window": st.A, "interval": st.B, "pos": toBS(st.Fl)}
+		x.result(ev, qf.Rolling("sum", st.Dst.String(), st.Src.String(), cf...))
 	case "Apply":
 		qf := x.frame(st.Recv)
 		ts := newTableSet()
